@@ -157,6 +157,12 @@ class C07(runner.Prop):
                         ctx.fail('order/converses', f'<= {le} >= {ge} is_suffix {suf} is_prefix {e2}')
                     if not (lt == gt == st_):
                         ctx.fail('order/strict_converses', f'< {lt} > {gt} strict {st_}')
+                    # the functional spellings are the same relation (strict flag forwarded)
+                    fn = (optree.treespec_is_prefix(A, B), optree.treespec_is_suffix(B, A),
+                          optree.treespec_is_prefix(A, B, strict=True), optree.treespec_is_suffix(B, A, strict=True),
+                          bool(B.is_suffix(A, strict=True)))
+                    if fn != (e2, e2, lt, lt, lt):
+                        ctx.fail('order/functional_spelling', f'{fn} vs is_prefix {e2} strict {lt}; A={A} B={B}')
                     want_lt = want and model.strictly_extends(msa, msb)
                     if lt != want_lt:
                         ctx.fail('order/strict_vs_model', f'A<B is {lt}, model {want_lt}; A={A} B={B}')
